@@ -1453,6 +1453,12 @@ def call_method(ex, node, st):
                                 z3.BoolSort())
                 return Val(TBool, f(recv.term, coerce(args[0], TStr).term))
             if meth == 'join':
+                # str.join needs strings: any other element raises TypeError
+                a0 = args[0] if args else None
+                if a0 is not None and isinstance(a0.ty, TList) and a0.ty.elem != TStr:
+                    ex.fail(st, a0.ty.len(a0.term) > 0, 'TypeError')
+                elif isinstance(a0, PyTuple) and any(it.ty not in (TStr,) for it in a0.items):
+                    ex.fail(st, z3.BoolVal(True), 'TypeError')
                 return ex.str_fn('join', [recv] + args)
             if meth == 'split':
                 raise OutsideSubset('str.split')
